@@ -100,14 +100,16 @@ mod imp {
         })));
     }
 
-    pub fn run_case(programs: &[String], schedule: &[usize]) -> (Vec<usize>, String) {
+    pub fn run_case(programs: &[String], schedule: &[usize], use_default: bool) -> (Vec<usize>, String) {
         let n = programs.len();
         let ctx = Arc::new(Ctx {
             m: Mutex::new(Sched { turn: None, state: vec![TState::Starting; n], seq: 0, cur_events: vec![vec![]; n] }),
             cv: Condvar::new(),
         });
         *CTX.lock().unwrap() = Some(ctx.clone());
-        let holder: Arc<SingletonHolder<usize>> = Arc::new(SingletonHolder::new());
+        // both public constructors must give an empty, settable holder
+        let holder: Arc<SingletonHolder<usize>> =
+            Arc::new(if use_default { SingletonHolder::default() } else { SingletonHolder::new() });
         let ptrs: Arc<Mutex<Vec<usize>>> = Arc::new(Mutex::new(Vec::new()));
         let mut handles = Vec::new();
         for (t, prog) in programs.iter().enumerate() {
@@ -202,7 +204,7 @@ mod imp {
 #[cfg(not(cadence_verif))]
 mod imp {
     pub fn install() {}
-    pub fn run_case(_programs: &[String], _schedule: &[usize]) -> (Vec<usize>, String) {
+    pub fn run_case(_programs: &[String], _schedule: &[usize], _use_default: bool) -> (Vec<usize>, String) {
         (vec![], "hook-guard-off".to_string())
     }
 }
@@ -216,9 +218,14 @@ fn run_line(line: &str) -> Option<String> {
     if f[0] != "holder" || f.len() != 3 {
         return Some(format!("{} => malformed", line));
     }
-    let programs: Vec<String> = f[1].split('/').map(|x| x.to_string()).collect();
+    // a leading `D:` selects `SingletonHolder::default()` instead of `::new()`
+    let (use_default, progs) = match f[1].strip_prefix("D:") {
+        Some(r) => (true, r),
+        None => (false, f[1]),
+    };
+    let programs: Vec<String> = progs.split('/').map(|x| x.to_string()).collect();
     let schedule: Vec<usize> = if f[2] == "-" { vec![] } else { f[2].split(',').filter_map(|x| x.parse().ok()).collect() };
-    let (used, obs) = imp::run_case(&programs, &schedule);
+    let (used, obs) = imp::run_case(&programs, &schedule, use_default);
     let sch = if used.is_empty() { "-".to_string() } else { used.iter().map(|x| x.to_string()).collect::<Vec<_>>().join(",") };
     Some(format!("holder {} {} => {}", f[1], sch, obs))
 }
@@ -301,7 +308,7 @@ fn main() {
             .collect();
         let total: usize = progs.iter().map(|p| ops_of(p)).sum();
         let sch: Vec<String> = (0..total + 2).map(|_| rng.below(nt as u64).to_string()).collect();
-        let l = format!("holder {} {}", progs.join("/"), sch.join(","));
+        let l = format!("holder {}{} {}", if rng.chance(30) { "D:" } else { "" }, progs.join("/"), sch.join(","));
         if let Some(o) = run_line(&l) {
             writeln!(out, "{}", o).unwrap();
             count += 1;
